@@ -20,7 +20,7 @@ var kinds = []string{
 	"p-release",
 	"p-return", "p-return", "p-return",
 	"p-forward", "p-forward", "p-echo",
-	"open", "open",
+	"open", "open", "p-pause", "p-wait-impl",
 	"a-boot", "a-boot",
 	"a-call", "a-call", "a-call",
 	"a-pcall", "a-pcall", "a-pcall",
@@ -46,12 +46,26 @@ var skeletons = map[string][]vat.Step{
 	// a chain of calls pipelined on held calls
 	"pipeline-chain": {{K: "p-boot"}, {K: "p-call", B: 1 | 1<<4}, {K: "p-pcall", A: 15, B: 1 | 1<<4}, {K: "p-pcall", A: 15, B: 1 << 4}, {K: "p-pcall", A: 14, B: 0}, {K: "p-pcall", A: 15, B: 0}, {K: "open"}, {K: "p-call", A: 15}, {K: "open"}},
 }
-var shapes = []string{"", "", "", "", "embargo-bootstrap", "embargo-bootstrap", "embargo-two-paths", "embargo-two-paths", "pipeline-chain", "pipeline-chain"}
+// an answer's queue is replayed while its target is busy with a call it has not acknowledged, and a further call on
+// the same pipeline arrives during the replay (no drawn steps in between: the indices matter; always in burst mode)
+var busyReplay = []vat.Step{{K: "p-boot"}, {K: "barrier"}, {K: "p-call", A: 0, B: 0x10}, {K: "barrier"}, {K: "a-boot"}, {K: "p-return", A: 0, B: 1, C: 5 | 1<<6}, {K: "barrier"},
+	// the application makes a call on that object (its own export, handed back by the peer) which is not acknowledged
+	{K: "a-call", A: 0, B: 0, C: 1 | 3<<4},
+	// the peer: a held call whose result is that object, two calls pipelined on it, the call returns, a third pipelined
+	// call arrives while the first two are being replayed, then the object acknowledges
+	// (its results: pointer 0 = the busy object, pointer 1 = a fresh object; the first pipelined call goes to the busy
+	// one and holds up the replay, the second and third go to the fresh one)
+	{K: "p-call", A: 0, B: 0x63, C: 12}, {K: "p-pcall", A: 2}, {K: "p-pcall", A: 2, C: 24}, {K: "p-sync"}, {K: "open", A: 0}, {K: "p-wait-impl"}, {K: "p-pcall", A: 2, C: 24}, {K: "p-pause", A: 3}, {K: "open", A: 0}}
+
+var shapes = []string{"", "", "", "", "embargo-bootstrap", "embargo-bootstrap", "embargo-two-paths", "embargo-two-paths", "pipeline-chain", "pipeline-chain", "busy-replay"}
 
 func genCase(t *rapid.T) vat.Case {
 	c := vat.Case{CloseAt: -1, Burst: rapid.Bool().Draw(t, "burst")}
 	shape := rapid.SampledFrom(shapes).Draw(t, "shape")
-	if shape != "" {
+	if shape == "busy-replay" {
+		c.Burst = true
+		c.Steps = append(c.Steps, busyReplay...)
+	} else if shape != "" {
 		for _, s := range skeletons[shape] {
 			for i, n := 0, rapid.SampledFrom([]int{0, 0, 0, 1, 1, 2}).Draw(t, "fill"); i < n; i++ {
 				c.Steps = append(c.Steps, randStep(t))
